@@ -667,8 +667,9 @@ pub fn build_blocks(ctx: &Ctx) -> Vec<Block> {
             if alpha.is_empty() {
                 continue;
             }
+            let ndev = p.iter().filter(|x| **x != 0).count();
             for rows in 0..=max_rows {
-                if rows > 2 && alpha.len() > 12 {
+                if rows > 2 && (alpha.len() > 12 || ndev > 2) {
                     continue;
                 }
                 blocks.push(Block { family: if dt.is_nested() { "nested-1col" } else { "typed-1col" }, opts: o.clone(), types: vec![dt.clone()], rows, alpha: vec![alpha.clone()], mode: Mode::Product });
@@ -680,7 +681,7 @@ pub fn build_blocks(ctx: &Ctx) -> Vec<Block> {
                 for (k, t3) in core.iter().enumerate() {
                     let alpha = vec![calpha[i].clone(), calpha[j].clone(), calpha[k].clone()];
                     let n = alpha.iter().map(|a| a.len()).max().unwrap() as u64;
-                    blocks.push(Block { family: "mixed-3col", opts: o.clone(), types: vec![t1.clone(), t2.clone(), t3.clone()], rows: 3, alpha, mode: Mode::Rotation(ctx.pick(n.min(4), n)) });
+                    blocks.push(Block { family: "mixed-3col", opts: o.clone(), types: vec![t1.clone(), t2.clone(), t3.clone()], rows: 3, alpha, mode: Mode::Rotation(ctx.pick(n.min(4), n.min(10))) });
                 }
             }
         }
